@@ -22,6 +22,12 @@
     applyEvent_row, applyAll_row(_from_empty), applyAllH_row
                                    the weighting lifted through the store lookup: for every event list and every row address of a
                                    user metric, count/sum = old + Σ rowDelta (accepted events addressed to the row only)
+    applyEvent_rowMV, applyAll_rowMV(H), evFn_fields, applyAll_row_min/_max/_sq/_uniq(_mem)/_td, evFn_td_values
+                                   every aggregate of a row over every event list: the MultiValue is the fold of the events' row
+                                   updates; (set,min)/(set,max) = running min/max over the accepted values addressed to the row,
+                                   Σ squares additive, unique set = inserted hashes (duplicate-free), TDigest flag monotone
+    applyEvent_status_row, applyAll_status_row(H), clampHit_code
+                                   every status row (ok, warnings, errors, clamped-future) over every event list
     rejected_status_store, rejected_primary_record, accepted_ok_record, accepted_no_error_status,
     applyAll_error_status, applyAllH_error_status
                                    status rows at store level: one record per rejected event in the right shard(s), one ok record
@@ -34,6 +40,7 @@
 -/
 import SH.Model.Ingest
 import SH.Lemmas.IngestStore
+import SH.Lemmas.IngestAgg
 import Mathlib.Tactic.Ring
 import Mathlib.Tactic.FieldSimp
 import Mathlib.Tactic.Linarith
@@ -2094,6 +2101,609 @@ example : (addr1 exCfg { exEvent with tags := [exTopTag] }).top = (0, "616263") 
 
 /-- tags-hash sharding: the event goes to the observed hash shard -/
 example : shard1 (effCfg { exCfg with metric := { exCfg.metric with strategy := 4 } } { exEvent with hashShard := 2 }) = 2 := by
+  decide +kernel
+
+
+
+
+/-! ### all aggregates of a row, over all event lists -/
+
+/-- the row update of one event (identity when the shard returns before touching anything) -/
+def evFn (pct : Bool) (e : Event) (mv : MV) : MV :=
+  match payFn pct e with
+  | none => mv
+  | some f => f mv
+
+/-- how many times (0, 1 or 2) event `e` updates the row at `a`: 0 if rejected; once in the metric's shard at the event's
+    row; once more at the second shard's copy -/
+def hitsN (cfg : Cfg) (e : Event) (a : Addr) : Nat :=
+  if verdict cfg e ≠ 0 then 0 else
+  (if a = addr1 cfg e then 1 else 0) +
+  (match shard2 cfg with
+    | some s2 => if ¬ applyDropped cfg (keyAfter cfg (evKey cfg e)) cfg.metric.shard2Ts ∧ a = addr2 cfg e s2 then 1 else 0
+    | none => 0)
+
+theorem hits_eq_hitsN (cfg : Cfg) (e : Event) (a : Addr) (hv : verdict cfg e = 0) : hits cfg e a = (hitsN cfg e a : Rat) := by
+  unfold hits hitsN
+  simp only [hv, ne_eq, not_true_eq_false, if_false]
+  cases shard2 cfg with
+  | none => by_cases h1 : a = addr1 cfg e <;> simp [h1]
+  | some s2 =>
+    by_cases h1 : a = addr1 cfg e <;>
+    by_cases h2 : (¬ applyDropped cfg (keyAfter cfg (evKey cfg e)) cfg.metric.shard2Ts ∧ a = addr2 cfg e s2) <;> simp [h1, h2]
+
+theorem two_iter (f : MV → MV) (x : MV) (b1 b2 : Prop) [Decidable b1] [Decidable b2] :
+    (if b2 then f (if b1 then f x else x) else (if b1 then f x else x)) =
+      f^[(if b1 then 1 else 0) + (if b2 then 1 else 0)] x := by
+  by_cases h1 : b1 <;> by_cases h2 : b2 <;> simp [h1, h2, Function.iterate_succ_apply]
+
+theorem payload_getMV (cfg : Cfg) (e : Event) (st : Store) (a : Addr) (ha : UserAddr a) :
+    getMV ((payload cfg e).foldl (runEffect cfg) (st, evKey cfg e)).1 a =
+      (evFn cfg.metric.pct e)^[(if a = addr1 cfg e then 1 else 0) +
+        (match shard2 cfg with
+          | some s2 => if ¬ applyDropped cfg (keyAfter cfg (evKey cfg e)) cfg.metric.shard2Ts ∧ a = addr2 cfg e s2 then 1 else 0
+          | none => 0)] (getMV st a) := by
+  rw [payload_eq]
+  unfold evFn
+  cases hf : payFn cfg.metric.pct e with
+  | none =>
+    have hid : ∀ s sh drop, runEffect cfg s (payEffect e sh drop) = s := by
+      intro s sh drop; rw [runEffect_pay, hf]
+    have hI : ∀ n : Nat, (fun mv : MV => mv)^[n] (getMV st a) = getMV st a := by
+      intro n; induction n with
+      | zero => rfl
+      | succ k ih => rw [Function.iterate_succ_apply]; exact ih
+    rcases both_cases cfg (payEffect e) with ⟨_, hb⟩ | ⟨s2, _, _, hb⟩ <;>
+      simp only [hb, List.foldl_cons, List.foldl_nil, hid, hI]
+  | some f =>
+    have hrun : ∀ s sh drop, runEffect cfg s (payEffect e sh drop) = shardApply cfg s.1 s.2 sh drop f := by
+      intro s sh drop; rw [runEffect_pay, hf]
+    have g1 : getMV (shardApply cfg st (evKey cfg e) (shard1 cfg) 0 f).1 a =
+        if a = addr1 cfg e then f (getMV st a) else getMV st a := by
+      have := shardApply_get cfg st (evKey cfg e) (shard1 cfg) 0 f a ha.1
+      simp only [not_dropped_zero, not_false_eq_true, true_and] at this
+      exact this
+    rcases both_cases cfg (payEffect e) with ⟨hs2, hb⟩ | ⟨s2, hs2, hne, hb⟩
+    · simp only [hb, List.foldl_cons, List.foldl_nil, hrun, hs2]
+      rw [g1]
+      have := two_iter f (getMV st a) (a = addr1 cfg e) False
+      simpa using this
+    · simp only [hb, List.foldl_cons, List.foldl_nil, hrun, hs2]
+      have k1 : (shardApply cfg st (evKey cfg e) (shard1 cfg) 0 f).2 = keyAfter cfg (evKey cfg e) := shardApply_key _ _ _ _ _ _
+      rw [k1]
+      have g2 : getMV (shardApply cfg (shardApply cfg st (evKey cfg e) (shard1 cfg) 0 f).1 (keyAfter cfg (evKey cfg e)) s2
+          cfg.metric.shard2Ts f).1 a =
+          if ¬ applyDropped cfg (keyAfter cfg (evKey cfg e)) cfg.metric.shard2Ts ∧ a = addr2 cfg e s2
+          then f (getMV (shardApply cfg st (evKey cfg e) (shard1 cfg) 0 f).1 a)
+          else getMV (shardApply cfg st (evKey cfg e) (shard1 cfg) 0 f).1 a :=
+        shardApply_get cfg _ (keyAfter cfg (evKey cfg e)) s2 cfg.metric.shard2Ts f a ha.1
+      rw [g2, g1]
+      exact two_iter f (getMV st a) (a = addr1 cfg e)
+        (¬ applyDropped cfg (keyAfter cfg (evKey cfg e)) cfg.metric.shard2Ts ∧ a = addr2 cfg e s2)
+
+/-- **One event, the whole row.** The MultiValue read at any address of a user metric after ApplyMetric is the row
+    update of the event applied `hitsN` times to what was read before — for every aggregate at once. -/
+theorem applyEvent_rowMV (cfg : Cfg) (st : Store) (e : Event) (a : Addr) (wf : WF e) (ha : UserAddr a) :
+    getMV (applyEvent cfg st e) a = (evFn cfg.metric.pct e)^[hitsN cfg e a] (getMV st a) := by
+  unfold hitsN
+  by_cases hv : verdict cfg e = 0
+  · simp only [hv, ne_eq, not_true_eq_false, if_false]
+    obtain ⟨heff, _, _⟩ := accepted_effects cfg e wf hv
+    unfold applyEvent
+    simp only []
+    rw [heff, List.foldl_append]
+    have hpre : ∀ x ∈ statusBoth cfg (ktGetI (header cfg.mapping e).ktags 0) cfg.metric.id stOKCached (header cfg.mapping e).statusTagKey "-" ++
+        warnings cfg (header cfg.mapping e) (ktGetI (header cfg.mapping e).ktags 0) cfg.metric.id, IsBuiltinStatus x := by
+      intro x hx
+      rcases List.mem_append.1 hx with hx | hx
+      · exact statusBoth_builtin _ _ _ _ _ _ x hx
+      · exact warnings_builtin _ _ _ _ x hx
+    generalize hs1 : (statusBoth cfg (ktGetI (header cfg.mapping e).ktags 0) cfg.metric.id stOKCached (header cfg.mapping e).statusTagKey "-" ++
+        warnings cfg (header cfg.mapping e) (ktGetI (header cfg.mapping e).ktags 0) cfg.metric.id).foldl (runEffect cfg)
+        (st, ({ metric := keyMetric cfg e, ts := eventTs cfg e, ktags := (header cfg.mapping e).ktags } : EvKey)) = s1
+    have hg := foldl_status_get cfg _ (st, ({ metric := keyMetric cfg e, ts := eventTs cfg e, ktags := (header cfg.mapping e).ktags } : EvKey)) a ha hpre
+    rw [hs1] at hg
+    have hs1' : s1 = (s1.1, evKey cfg e) := by
+      have : s1.2 = evKey cfg e := hg.2
+      rw [← this]
+    rw [hs1', payload_getMV cfg e s1.1 a ha, hg.1]
+  · simp only [hv, ne_eq, not_false_eq_true, if_true, Function.iterate_zero, id_eq]
+    obtain ⟨env, tagKey, str, he⟩ := rejected_effects cfg e hv
+    unfold applyEvent
+    simp only [he]
+    exact (foldl_status_get cfg _ _ a ha (rejectionRecords_builtin cfg e env tagKey str)).1
+
+/-- **Every event list, the whole row**: the MultiValue at an address is the fold, over the events in order, of their
+    row updates (each applied 0, 1 or 2 times); rejected events and events addressed elsewhere are the identity. -/
+theorem applyAll_rowMV (cfg : Cfg) (st : Store) (evs : List Event) (a : Addr) (hwf : ∀ e ∈ evs, WF e) (ha : UserAddr a) :
+    getMV (applyAll cfg st evs) a =
+      evs.foldl (fun mv e => (evFn cfg.metric.pct e)^[hitsN cfg e a] mv) (getMV st a) := by
+  induction evs generalizing st with
+  | nil => rfl
+  | cons e es ih =>
+    rw [applyAll_cons, ih _ (fun x hx => hwf x (List.mem_cons_of_mem _ hx)), applyEvent_rowMV cfg st e a (hwf e List.mem_cons_self) ha]
+    rfl
+
+
+
+/-- the values of an accepted event that enter the row's min/max, in program order (empty when the shard or
+    MultiValue.ApplyValues returns early) -/
+def evVals (e : Event) : List Rat :=
+  if e.uniq.length ≠ 0 then
+    (if effCount e.counter.toRat (e.uniq.length : Rat) ≤ 0 then [] else (uniqPairs e.uniq).map (·.1))
+  else if e.hist.length + e.values.length ≠ 0 then
+    (if effCount e.counter.toRat (histTotal e.values e.hist) ≤ 0 then []
+     else if histTotal e.values e.hist ≤ 0 then []
+     else (valuePairs e.values e.hist).map (·.1))
+  else []
+
+/-- what one accepted event adds to the row's sum of squares: Σ v²·w · count / total -/
+def evSq (e : Event) : Rat :=
+  if e.uniq.length ≠ 0 then
+    (if effCount e.counter.toRat (e.uniq.length : Rat) ≤ 0 then 0
+     else wsq (uniqPairs e.uniq) * effCount e.counter.toRat (e.uniq.length : Rat) / (e.uniq.length : Rat))
+  else if e.hist.length + e.values.length ≠ 0 then
+    (if effCount e.counter.toRat (histTotal e.values e.hist) ≤ 0 then 0
+     else if histTotal e.values e.hist ≤ 0 then 0
+     else wsq (valuePairs e.values e.hist) * effCount e.counter.toRat (histTotal e.values e.hist) / histTotal e.values e.hist)
+  else 0
+
+/-- the hashes an accepted event inserts into the row's unique set -/
+def evUniq (e : Event) : List Int :=
+  if e.uniq.length ≠ 0 then (if effCount e.counter.toRat (e.uniq.length : Rat) ≤ 0 then [] else e.uniq) else []
+
+theorem uniqPairs_ne_nil (l : List Int) (h : l.length ≠ 0) : uniqPairs l ≠ [] := by
+  unfold uniqPairs; cases l with
+  | nil => simp at h
+  | cons _ _ => simp
+
+theorem mvApplyValues_eq (pct : Bool) (vals : List (Rat × Rat)) (c t : Rat) (mv : MV) (ht : ¬ t ≤ 0) :
+    mvApplyValues pct vals c t mv =
+      if (pct && (mergeVals vals c t mv).min != (mergeVals vals c t mv).max) = true
+      then { mergeVals vals c t mv with td := true } else mergeVals vals c t mv := by
+  unfold mvApplyValues mergeVals; simp only [if_neg ht]
+
+theorem mvApplyUnique_eq (hashes : List Int) (c : Rat) (mv : MV) (hl : hashes.length ≠ 0) :
+    mvApplyUnique hashes c mv =
+      { mergeVals (uniqPairs hashes) c (hashes.length : Rat) mv with uniq := hashes.foldl insertUniq mv.uniq } := by
+  unfold mvApplyUnique mergeVals uniqPairs; simp only [if_neg hl]
+
+/-- **One row update, every other aggregate.** (ValueSet, ValueMin) and (ValueSet, ValueMax) are the running min/max
+    folded over the event's values; the sum of squares grows by `evSq`; the unique set gets the event's hashes inserted;
+    the TDigest flag is never cleared and, for a metric without percentiles, never set. -/
+theorem evFn_fields (pct : Bool) (e : Event) (mv : MV) :
+    ((evFn pct e mv).set, (evFn pct e mv).min) = (evVals e).foldl minStep (mv.set, mv.min) ∧
+    ((evFn pct e mv).set, (evFn pct e mv).max) = (evVals e).foldl maxStep (mv.set, mv.max) ∧
+    (evFn pct e mv).sq = mv.sq + evSq e ∧
+    (evFn pct e mv).uniq = (evUniq e).foldl insertUniq mv.uniq ∧
+    (pct = false → (evFn pct e mv).td = mv.td) ∧ (mv.td = true → (evFn pct e mv).td = true) := by
+  unfold evFn payFn evVals evSq evUniq
+  by_cases hu : e.uniq.length ≠ 0
+  · simp only [if_pos hu]
+    by_cases hc : effCount e.counter.toRat (e.uniq.length : Rat) ≤ 0
+    · simp only [if_pos hc]; simp
+    · simp only [if_neg hc]
+      have hn : (e.uniq.length : Rat) ≠ 0 := by exact_mod_cast hu
+      obtain ⟨m1, m2, m3, m4, m5⟩ := mergeVals_fields (uniqPairs e.uniq) (effCount e.counter.toRat (e.uniq.length : Rat))
+        (e.uniq.length : Rat) mv (uniqPairs_ne_nil _ hu) hn
+      rw [mvApplyUnique_eq _ _ _ hu]
+      exact ⟨m1, m2, m3, rfl, fun _ => m5, fun h => m5.trans h⟩
+  · simp only [if_neg hu]
+    by_cases hv : e.hist.length + e.values.length ≠ 0
+    · simp only [if_pos hv]
+      by_cases hc : effCount e.counter.toRat (histTotal e.values e.hist) ≤ 0
+      · simp only [if_pos hc]; simp
+      · simp only [if_neg hc]
+        by_cases ht : histTotal e.values e.hist ≤ 0
+        · simp only [if_pos ht, mvApplyValues]; simp
+        · simp only [if_neg ht]
+          have ht' : histTotal e.values e.hist ≠ 0 := fun h => ht (le_of_eq h)
+          obtain ⟨m1, m2, m3, m4, m5⟩ := mergeVals_fields (valuePairs e.values e.hist)
+            (effCount e.counter.toRat (histTotal e.values e.hist)) (histTotal e.values e.hist) mv (valuePairs_ne_nil _ _ hv) ht'
+          rw [mvApplyValues_eq _ _ _ _ _ ht]
+          split
+          · rename_i htd
+            refine ⟨m1, m2, m3, m4, ?_, fun _ => rfl⟩
+            intro hp; rw [hp] at htd; simp at htd
+          · exact ⟨m1, m2, m3, m4, fun _ => m5, fun h => m5.trans h⟩
+    · simp only [if_neg hv]
+      by_cases hc : e.counter.toRat ≤ 0
+      · simp only [if_pos hc]; simp
+      · simp only [if_neg hc]
+        obtain ⟨a1, a2, a3, a4, a5, a6, _⟩ := addCount_fields e.counter.toRat mv
+        simp [a1, a2, a3, a4, a5, a6]
+
+/-! #### projections of the row fold -/
+
+theorem iterate_proj {α : Type} (F : MV → MV) (π : MV → α) (σ : α → α) (h : ∀ mv, π (F mv) = σ (π mv)) (n : Nat) (mv : MV) :
+    π (F^[n] mv) = σ^[n] (π mv) := by
+  induction n generalizing mv with
+  | zero => rfl
+  | succ k ih => rw [Function.iterate_succ_apply, Function.iterate_succ_apply, ih, h]
+
+theorem foldl_proj {α : Type} (evs : List Event) (G : MV → Event → MV) (π : MV → α) (S : α → Event → α)
+    (h : ∀ mv e, π (G mv e) = S (π mv) e) (mv : MV) : π (evs.foldl G mv) = evs.foldl S (π mv) := by
+  induction evs generalizing mv with
+  | nil => rfl
+  | cons e es ih => rw [List.foldl_cons, List.foldl_cons, ih, h]
+
+/-- the values that reach the row at `a`, in order: each event's values once per hit -/
+def rowVals (cfg : Cfg) (evs : List Event) (a : Addr) : List Rat :=
+  evs.flatMap (fun e => (List.replicate (hitsN cfg e a) (evVals e)).flatten)
+
+/-- the hashes that reach the row at `a` -/
+def rowUniq (cfg : Cfg) (evs : List Event) (a : Addr) : List Int :=
+  evs.flatMap (fun e => (List.replicate (hitsN cfg e a) (evUniq e)).flatten)
+
+theorem iterate_foldl {α β : Type} (step : β → α → β) (l : List α) (n : Nat) (s : β) :
+    (fun s => l.foldl step s)^[n] s = ((List.replicate n l).flatten).foldl step s := by
+  induction n generalizing s with
+  | zero => rfl
+  | succ k ih => rw [Function.iterate_succ_apply, ih, List.replicate_succ, List.flatten_cons, List.foldl_append]
+
+theorem foldl_flatMap {α β γ : Type} (step : β → α → β) (g : γ → List α) (l : List γ) (s : β) :
+    (l.flatMap g).foldl step s = l.foldl (fun s x => (g x).foldl step s) s := by
+  induction l generalizing s with
+  | nil => rfl
+  | cons x xs ih => rw [List.flatMap_cons, List.foldl_append, List.foldl_cons, ih]
+
+/-- **Min over every event list**: (ValueSet, ValueMin) of a row is the running minimum folded over the values of the
+    accepted events addressed to it. -/
+theorem applyAll_row_min (cfg : Cfg) (st : Store) (evs : List Event) (a : Addr) (hwf : ∀ e ∈ evs, WF e) (ha : UserAddr a) :
+    ((getMV (applyAll cfg st evs) a).set, (getMV (applyAll cfg st evs) a).min) =
+      (rowVals cfg evs a).foldl minStep ((getMV st a).set, (getMV st a).min) := by
+  rw [applyAll_rowMV cfg st evs a hwf ha]
+  rw [foldl_proj evs _ (fun mv => (mv.set, mv.min)) (fun s e => ((List.replicate (hitsN cfg e a) (evVals e)).flatten).foldl minStep s)]
+  · unfold rowVals; rw [foldl_flatMap]
+  · intro mv e
+    rw [iterate_proj (evFn cfg.metric.pct e) (fun mv => (mv.set, mv.min)) (fun s => (evVals e).foldl minStep s)
+      (fun mv => (evFn_fields cfg.metric.pct e mv).1)]
+    exact iterate_foldl minStep _ _ _
+
+/-- **Max over every event list.** -/
+theorem applyAll_row_max (cfg : Cfg) (st : Store) (evs : List Event) (a : Addr) (hwf : ∀ e ∈ evs, WF e) (ha : UserAddr a) :
+    ((getMV (applyAll cfg st evs) a).set, (getMV (applyAll cfg st evs) a).max) =
+      (rowVals cfg evs a).foldl maxStep ((getMV st a).set, (getMV st a).max) := by
+  rw [applyAll_rowMV cfg st evs a hwf ha]
+  rw [foldl_proj evs _ (fun mv => (mv.set, mv.max)) (fun s e => ((List.replicate (hitsN cfg e a) (evVals e)).flatten).foldl maxStep s)]
+  · unfold rowVals; rw [foldl_flatMap]
+  · intro mv e
+    rw [iterate_proj (evFn cfg.metric.pct e) (fun mv => (mv.set, mv.max)) (fun s => (evVals e).foldl maxStep s)
+      (fun mv => (evFn_fields cfg.metric.pct e mv).2.1)]
+    exact iterate_foldl maxStep _ _ _
+
+/-- **Unique set over every event list**: the hashes of the accepted unique events addressed to the row, inserted in
+    order into the old set. -/
+theorem applyAll_row_uniq (cfg : Cfg) (st : Store) (evs : List Event) (a : Addr) (hwf : ∀ e ∈ evs, WF e) (ha : UserAddr a) :
+    (getMV (applyAll cfg st evs) a).uniq = (rowUniq cfg evs a).foldl insertUniq (getMV st a).uniq := by
+  rw [applyAll_rowMV cfg st evs a hwf ha]
+  rw [foldl_proj evs _ (fun mv => mv.uniq) (fun s e => ((List.replicate (hitsN cfg e a) (evUniq e)).flatten).foldl insertUniq s)]
+  · unfold rowUniq; rw [foldl_flatMap]
+  · intro mv e
+    rw [iterate_proj (evFn cfg.metric.pct e) (fun mv => mv.uniq) (fun s => (evUniq e).foldl insertUniq s)
+      (fun mv => (evFn_fields cfg.metric.pct e mv).2.2.2.1)]
+    exact iterate_foldl insertUniq _ _ _
+
+/-- as a set: a hash is in the row iff it was there before or some accepted unique event addressed to the row carried
+    it; and the representation stays duplicate-free, so its length is the number of distinct hashes -/
+theorem applyAll_row_uniq_mem (cfg : Cfg) (st : Store) (evs : List Event) (a : Addr) (hwf : ∀ e ∈ evs, WF e) (ha : UserAddr a)
+    (x : Int) :
+    (x ∈ (getMV (applyAll cfg st evs) a).uniq ↔ x ∈ (getMV st a).uniq ∨ x ∈ rowUniq cfg evs a) ∧
+    ((getMV st a).uniq.Nodup → (getMV (applyAll cfg st evs) a).uniq.Nodup) := by
+  rw [applyAll_row_uniq cfg st evs a hwf ha]
+  exact ⟨mem_foldl_insertUniq _ _ _, nodup_foldl_insertUniq _ _⟩
+
+theorem iterate_add_const (c : Rat) (n : Nat) (x : Rat) : (fun s => s + c)^[n] x = x + (n : Rat) * c := by
+  induction n generalizing x with
+  | zero => simp
+  | succ k ih => rw [Function.iterate_succ_apply, ih]; push_cast; ring
+
+/-- **Sum of squares over every event list**: old + Σ over the events of (number of hits) · Σ v²·w · count/total. -/
+theorem applyAll_row_sq (cfg : Cfg) (st : Store) (evs : List Event) (a : Addr) (hwf : ∀ e ∈ evs, WF e) (ha : UserAddr a) :
+    (getMV (applyAll cfg st evs) a).sq = (getMV st a).sq + (evs.map (fun e => (hitsN cfg e a : Rat) * evSq e)).sum := by
+  rw [applyAll_rowMV cfg st evs a hwf ha]
+  rw [foldl_proj evs _ (fun mv => mv.sq) (fun s e => s + (hitsN cfg e a : Rat) * evSq e)]
+  · generalize (getMV st a).sq = x
+    induction evs generalizing x with
+    | nil => simp
+    | cons e es ih => rw [List.foldl_cons, ih (fun y hy => hwf y (List.mem_cons_of_mem _ hy))]; simp only [List.map_cons, List.sum_cons]; ring
+  · intro mv e
+    rw [iterate_proj (evFn cfg.metric.pct e) (fun mv => mv.sq) (fun s => s + evSq e)
+      (fun mv => (evFn_fields cfg.metric.pct e mv).2.2.1)]
+    exact iterate_add_const _ _ _
+
+/-- **Percentile (TDigest) flag over every event list**: never cleared; for a metric without percentiles never set. -/
+theorem applyAll_row_td (cfg : Cfg) (st : Store) (evs : List Event) (a : Addr) (hwf : ∀ e ∈ evs, WF e) (ha : UserAddr a) :
+    ((getMV st a).td = true → (getMV (applyAll cfg st evs) a).td = true) ∧
+    (cfg.metric.pct = false → (getMV (applyAll cfg st evs) a).td = (getMV st a).td) := by
+  rw [applyAll_rowMV cfg st evs a hwf ha]
+  generalize getMV st a = mv
+  have hmono : ∀ (e : Event) (n : Nat) (mv : MV), mv.td = true → ((evFn cfg.metric.pct e)^[n] mv).td = true := by
+    intro e n; induction n with
+    | zero => intro mv h; exact h
+    | succ k ih => intro mv h; rw [Function.iterate_succ_apply]; exact ih _ ((evFn_fields cfg.metric.pct e mv).2.2.2.2.2 h)
+  have hconst : cfg.metric.pct = false → ∀ (e : Event) (n : Nat) (mv : MV), ((evFn cfg.metric.pct e)^[n] mv).td = mv.td := by
+    intro hp e n; induction n with
+    | zero => intro mv; rfl
+    | succ k ih => intro mv; rw [Function.iterate_succ_apply, ih, (evFn_fields cfg.metric.pct e mv).2.2.2.2.1 hp]
+  constructor
+  · intro h
+    induction evs generalizing mv with
+    | nil => exact h
+    | cons e es ih => rw [List.foldl_cons]; exact ih (fun y hy => hwf y (List.mem_cons_of_mem _ hy)) _ (hmono e _ mv h)
+  · intro hp
+    induction evs generalizing mv with
+    | nil => rfl
+    | cons e es ih => rw [List.foldl_cons, ih (fun y hy => hwf y (List.mem_cons_of_mem _ hy)), hconst hp]
+
+/-- the percentile flag after one row update of a value event that reaches MultiValue.ApplyValues: set exactly when it
+    was set before, or the metric has percentiles and the merged row has two different values (min ≠ max) -/
+theorem evFn_td_values (pct : Bool) (e : Event) (mv : MV) (hu : e.uniq.length = 0) (hv : e.hist.length + e.values.length ≠ 0)
+    (hc : 0 < effCount e.counter.toRat (histTotal e.values e.hist)) (ht : 0 < histTotal e.values e.hist) :
+    (evFn pct e mv).td = (mv.td || (pct && (evFn pct e mv).min != (evFn pct e mv).max)) := by
+  have hc' : ¬ effCount e.counter.toRat (histTotal e.values e.hist) ≤ 0 := by linarith
+  have ht' : ¬ histTotal e.values e.hist ≤ 0 := by linarith
+  have ht'' : histTotal e.values e.hist ≠ 0 := ne_of_gt ht
+  obtain ⟨_, _, _, _, m5⟩ := mergeVals_fields (valuePairs e.values e.hist)
+    (effCount e.counter.toRat (histTotal e.values e.hist)) (histTotal e.values e.hist) mv (valuePairs_ne_nil _ _ hv) ht''
+  have hu' : ¬ e.uniq.length ≠ 0 := by simp [hu]
+  unfold evFn payFn
+  simp only [if_neg hu', if_pos hv, if_neg hc']
+  rw [mvApplyValues_eq _ _ _ _ _ ht']
+  split
+  · rename_i h; simp [h]
+  · rename_i h
+    have h' : (pct && (mergeVals (valuePairs e.values e.hist) (effCount e.counter.toRat (histTotal e.values e.hist))
+        (histTotal e.values e.hist) mv).min != (mergeVals (valuePairs e.values e.hist)
+        (effCount e.counter.toRat (histTotal e.values e.hist)) (histTotal e.values e.hist) mv).max) = false := by simpa using h
+    rw [h', Bool.or_false]; exact m5
+
+
+
+/-! ### every status row (ok, warnings, errors, clamped-future) over all event lists -/
+
+theorem resolveTs_le (now res ts : Nat) : (resolveTs now res ts).1 ≤ now + futureSlots := by
+  unfold resolveTs
+  simp only
+  generalize (if ts = 0 then now else ts) = t0
+  by_cases hc : now + futureSlots < t0
+  · simp only [hc, decide_true, if_true]
+    split
+    · exact le_refl _
+    · exact Nat.div_mul_le_self _ _
+  · simp only [hc, decide_false, Bool.false_eq_true, if_false]
+    have h0 : t0 ≤ now + futureSlots := by omega
+    split
+    · exact h0
+    · exact le_trans (Nat.div_mul_le_self _ _) h0
+
+/-- the second shard never sees a future timestamp: the first shard already clamped it -/
+theorem resolveTs_second_not_clamped (now res ts : Nat) : (resolveTs now res (resolveTs now res ts).1).2 = false := by
+  have h := resolveTs_le now res ts
+  generalize (resolveTs now res ts).1 = o at h
+  unfold resolveTs
+  simp only
+  by_cases h0 : o = 0
+  · simp [h0]
+  · simp only [h0, if_false]; simp; omega
+
+/-- where the clamped-future warning of a shard call lands -/
+def clampAddr (cfg : Cfg) (k : EvKey) (sh : Nat) : Addr :=
+  statusAddr cfg sh statusMetricID statusMetricRes (resolveTs cfg.now cfg.metric.res k.ts).1 (clampedTags (keyAfter cfg k)) "-"
+
+/-- a shard call read at a row of another metric: only the clamped-future warning can change it -/
+theorem shardApply_get_other_metric (cfg : Cfg) (st : Store) (k : EvKey) (sh drop : Nat) (f : MV → MV) (a : Addr)
+    (hm : a.metric ≠ k.metric) :
+    getMV (shardApply cfg st k sh drop f).1 a =
+      if ¬ applyDropped cfg k drop ∧ (resolveTs cfg.now cfg.metric.res k.ts).2 = true ∧
+          ¬ ((resolveTs cfg.now statusMetricRes (resolveTs cfg.now cfg.metric.res k.ts).1).1 < drop) ∧ a = clampAddr cfg k sh
+      then addCount 1 (getMV st a) else getMV st a := by
+  unfold shardApply applyDropped clampAddr keyAfter
+  simp only
+  by_cases hd : (resolveTs cfg.now cfg.metric.res k.ts).1 < drop
+  · simp [hd]
+  · have hne : a ≠ ⟨sh, k.metric, (resolveTs cfg.now cfg.metric.res k.ts).1, k.noTop, normTop k.top⟩ := by
+      intro h; apply hm; rw [h]
+    simp only [hd, if_false, not_false_eq_true, true_and]
+    by_cases hc : (resolveTs cfg.now cfg.metric.res k.ts).2 = true
+    · simp only [hc, if_true, true_and]
+      rw [addStatus_get, getMV_storeUpd_other _ _ _ _ _ _ _ _ hne]
+    · simp only [hc, if_false, false_and]
+      exact getMV_storeUpd_other _ _ _ _ _ _ _ _ hne
+
+/-- 1 if the accepted event `e` writes its clamped-future warning to `a` (first shard only, timestamp more than
+    `futureSlots` seconds ahead, the shard did not return early), else 0 -/
+def clampHit (cfg : Cfg) (e : Event) (a : Addr) : Rat :=
+  if verdict cfg e = 0 ∧ (payFn cfg.metric.pct e).isSome = true ∧
+      (resolveTs cfg.now cfg.metric.res (eventTs cfg e)).2 = true ∧ a = clampAddr cfg (evKey cfg e) (shard1 cfg)
+  then 1 else 0
+
+theorem statusHit_payEffect (cfg : Cfg) (a : Addr) (e : Event) (sh drop : Nat) : statusHit cfg a (payEffect e sh drop) = 0 := by
+  unfold payEffect; split
+  · rfl
+  · split <;> rfl
+
+theorem payload_hits_zero (cfg : Cfg) (a : Addr) (e : Event) : ((payload cfg e).map (statusHit cfg a)).sum = 0 := by
+  rw [payload_eq]
+  rcases both_cases cfg (payEffect e) with ⟨_, hb⟩ | ⟨s2, _, _, hb⟩ <;> simp [hb, statusHit_payEffect]
+
+/-- the contribution part of ApplyMetric read at a status row -/
+theorem payload_get_status_cnt (cfg : Cfg) (e : Event) (st : Store) (a : Addr) (hnn : NN st)
+    (hm : a.metric ≠ (evKey cfg e).metric) :
+    (getMV ((payload cfg e).foldl (runEffect cfg) (st, evKey cfg e)).1 a).cnt =
+      (getMV st a).cnt +
+        (if (payFn cfg.metric.pct e).isSome = true ∧ (resolveTs cfg.now cfg.metric.res (eventTs cfg e)).2 = true ∧
+            a = clampAddr cfg (evKey cfg e) (shard1 cfg) then 1 else 0) := by
+  rw [payload_eq]
+  cases hf : payFn cfg.metric.pct e with
+  | none =>
+    have hid : ∀ s sh drop, runEffect cfg s (payEffect e sh drop) = s := by
+      intro s sh drop; rw [runEffect_pay, hf]
+    rcases both_cases cfg (payEffect e) with ⟨_, hb⟩ | ⟨s2, _, _, hb⟩ <;> simp [hb, hid]
+  | some f =>
+    have hrun : ∀ s sh drop, runEffect cfg s (payEffect e sh drop) = shardApply cfg s.1 s.2 sh drop f := by
+      intro s sh drop; rw [runEffect_pay, hf]
+    have g1 := shardApply_get_other_metric cfg st (evKey cfg e) (shard1 cfg) 0 f a hm
+    have nd : ¬ applyDropped cfg (evKey cfg e) 0 := not_dropped_zero _ _
+    have nd2 : ¬ ((resolveTs cfg.now statusMetricRes (resolveTs cfg.now cfg.metric.res (evKey cfg e).ts).1).1 < 0) := by omega
+    simp only [nd, nd2, not_false_eq_true, true_and] at g1
+    have first : (getMV (shardApply cfg st (evKey cfg e) (shard1 cfg) 0 f).1 a).cnt =
+        (getMV st a).cnt + (if (resolveTs cfg.now cfg.metric.res (eventTs cfg e)).2 = true ∧
+          a = clampAddr cfg (evKey cfg e) (shard1 cfg) then 1 else 0) := by
+      rw [g1]
+      by_cases hc : (resolveTs cfg.now cfg.metric.res (evKey cfg e).ts).2 = true ∧ a = clampAddr cfg (evKey cfg e) (shard1 cfg)
+      · have hc' : (resolveTs cfg.now cfg.metric.res (eventTs cfg e)).2 = true ∧ a = clampAddr cfg (evKey cfg e) (shard1 cfg) := hc
+        simp only [hc, and_self, if_true, hc']
+        exact addCount_one_cnt _ (hnn _)
+      · have hc' : ¬ ((resolveTs cfg.now cfg.metric.res (eventTs cfg e)).2 = true ∧ a = clampAddr cfg (evKey cfg e) (shard1 cfg)) := hc
+        simp only [hc, if_false, hc', add_zero]
+    rcases both_cases cfg (payEffect e) with ⟨_, hb⟩ | ⟨s2, _, _, hb⟩
+    · simp only [hb, List.foldl_cons, List.foldl_nil, hrun, Option.isSome_some, true_and]
+      exact first
+    · simp only [hb, List.foldl_cons, List.foldl_nil, hrun, Option.isSome_some, true_and]
+      rw [shardApply_key]
+      have hm2 : a.metric ≠ (keyAfter cfg (evKey cfg e)).metric := hm
+      rw [shardApply_get_other_metric cfg _ (keyAfter cfg (evKey cfg e)) s2 cfg.metric.shard2Ts f a hm2]
+      have : (resolveTs cfg.now cfg.metric.res (keyAfter cfg (evKey cfg e)).ts).2 = false :=
+        resolveTs_second_not_clamped _ _ _
+      simp only [this, Bool.false_eq_true, false_and, and_false, if_false]
+      exact first
+
+/-- **One event, every status row.** For any store with non-negative counts, any event of a user metric and any row of
+    the two status metrics: the count grows by the number of status records ApplyMetric writes to it (ok, warnings or
+    the rejection record, each in the metric's shard and its copy for a second shard) plus the clamped-future warning of
+    the first shard. -/
+theorem applyEvent_status_row (cfg : Cfg) (st : Store) (e : Event) (a : Addr) (wf : WF e) (hu : UserMetric cfg) (hnn : NN st)
+    (ha : a.metric = statusMetricID ∨ a.metric = noShardMetricID) :
+    (getMV (applyEvent cfg st e) a).cnt =
+      (getMV st a).cnt + ((effects cfg e (header cfg.mapping e)).map (statusHit cfg a)).sum + clampHit cfg e a := by
+  unfold clampHit
+  by_cases hv : verdict cfg e = 0
+  · obtain ⟨heff, _, _⟩ := accepted_effects cfg e wf hv
+    have hz := (verdict_zero_iff cfg e wf).1 hv
+    have hkm : keyMetric cfg e = cfg.metric.id := by simp [keyMetric, hz.2.1]
+    have hpre : ∀ x ∈ statusBoth cfg (ktGetI (header cfg.mapping e).ktags 0) cfg.metric.id stOKCached (header cfg.mapping e).statusTagKey "-" ++
+        warnings cfg (header cfg.mapping e) (ktGetI (header cfg.mapping e).ktags 0) cfg.metric.id, IsBuiltinStatus x := by
+      intro x hx
+      rcases List.mem_append.1 hx with hx | hx
+      · exact statusBoth_builtin _ _ _ _ _ _ x hx
+      · exact warnings_builtin _ _ _ _ x hx
+    have hst : ∀ x ∈ statusBoth cfg (ktGetI (header cfg.mapping e).ktags 0) cfg.metric.id stOKCached (header cfg.mapping e).statusTagKey "-" ++
+        warnings cfg (header cfg.mapping e) (ktGetI (header cfg.mapping e).ktags 0) cfg.metric.id, x.isStatus = true := by
+      intro x hx; obtain ⟨_, _, _, _, _, _, rfl, _⟩ := hpre x hx; rfl
+    unfold applyEvent
+    simp only []
+    rw [heff, List.foldl_append, List.map_append, List.sum_append, payload_hits_zero, add_zero]
+    generalize hs1 : (statusBoth cfg (ktGetI (header cfg.mapping e).ktags 0) cfg.metric.id stOKCached (header cfg.mapping e).statusTagKey "-" ++
+        warnings cfg (header cfg.mapping e) (ktGetI (header cfg.mapping e).ktags 0) cfg.metric.id).foldl (runEffect cfg)
+        (st, ({ metric := keyMetric cfg e, ts := eventTs cfg e, ktags := (header cfg.mapping e).ktags } : EvKey)) = s1
+    have hcnt := foldl_status_cnt cfg _ (st, ({ metric := keyMetric cfg e, ts := eventTs cfg e, ktags := (header cfg.mapping e).ktags } : EvKey)) a hnn hst
+    have hkey := foldl_status_key cfg _ (st, ({ metric := keyMetric cfg e, ts := eventTs cfg e, ktags := (header cfg.mapping e).ktags } : EvKey)) hpre
+    have hnn1 := foldl_NN cfg (statusBoth cfg (ktGetI (header cfg.mapping e).ktags 0) cfg.metric.id stOKCached (header cfg.mapping e).statusTagKey "-" ++
+        warnings cfg (header cfg.mapping e) (ktGetI (header cfg.mapping e).ktags 0) cfg.metric.id)
+        (st, ({ metric := keyMetric cfg e, ts := eventTs cfg e, ktags := (header cfg.mapping e).ktags } : EvKey)) hnn
+    rw [hs1] at hcnt hkey hnn1
+    have hs1' : s1 = (s1.1, evKey cfg e) := by
+      have : s1.2 = evKey cfg e := hkey
+      rw [← this]
+    have hma : a.metric ≠ (evKey cfg e).metric := by
+      show a.metric ≠ keyMetric cfg e
+      rw [hkm]; rcases ha with ha | ha <;> rw [ha] <;> [exact hu.1.symm; exact hu.2.symm]
+    rw [hs1', payload_get_status_cnt cfg e s1.1 a hnn1 hma, hcnt]
+    simp only [hv, true_and]
+  · simp only [hv, false_and, if_false, add_zero]
+    unfold applyEvent
+    exact foldl_status_cnt cfg _ _ a hnn (fun x hx => ((rejected_record_count cfg e hv).1 x hx).1)
+
+/-- **Every event list, every status row**: ok rows, warning rows, error rows and clamped-future rows alike read the old
+    count plus, summed over the events, the status records and clamped-future warnings addressed to them. -/
+theorem applyAll_status_row (cfg : Cfg) (st : Store) (evs : List Event) (a : Addr)
+    (hwf : ∀ e ∈ evs, WF e) (hu : UserMetric cfg) (hnn : NN st) (ha : a.metric = statusMetricID ∨ a.metric = noShardMetricID) :
+    (getMV (applyAll cfg st evs) a).cnt = (getMV st a).cnt +
+      (evs.map (fun e => ((effects cfg e (header cfg.mapping e)).map (statusHit cfg a)).sum + clampHit cfg e a)).sum := by
+  induction evs generalizing st with
+  | nil => simp [applyAll]
+  | cons e es ih =>
+    rw [applyAll_cons, ih _ (fun x hx => hwf x (List.mem_cons_of_mem _ hx)) (applyEvent_NN cfg st e hnn),
+      applyEvent_status_row cfg st e a (hwf e List.mem_cons_self) hu hnn ha]
+    simp only [List.map_cons, List.sum_cons]; ring
+
+/-- only rows whose status tag is "clamped future" can receive a clamped-future warning -/
+theorem clampHit_code (cfg : Cfg) (e : Event) (a : Addr) (h : codeOf a ≠ stWarnTimestampClampedFuture) : clampHit cfg e a = 0 := by
+  unfold clampHit
+  split
+  · rename_i hc
+    exfalso; apply h
+    rw [hc.2.2.2]; simp [codeOf, clampAddr, statusAddr, clampedTags, ktGetI_tagsOfList]
+  · rfl
+
+/-- for every sharding strategy -/
+theorem applyAllH_status_row (cfg : Cfg) (st : Store) (evs : List Event) (a : Addr)
+    (hwf : ∀ e ∈ evs, WF e) (hu : UserMetric cfg) (hnn : NN st) (ha : a.metric = statusMetricID ∨ a.metric = noShardMetricID) :
+    (getMV (applyAllH cfg st evs) a).cnt = (getMV st a).cnt +
+      (evs.map (fun e => ((effects (effCfg cfg e) e (header (effCfg cfg e).mapping e)).map (statusHit (effCfg cfg e) a)).sum +
+        clampHit (effCfg cfg e) e a)).sum := by
+  induction evs generalizing st with
+  | nil => simp [applyAllH]
+  | cons e es ih =>
+    have i := ih (applyEventH cfg st e) (fun x hx => hwf x (List.mem_cons_of_mem _ hx)) (applyEvent_NN (effCfg cfg e) st e hnn)
+    have r := applyEvent_status_row (effCfg cfg e) st e a (hwf e List.mem_cons_self) (effCfg_user cfg e hu) hnn ha
+    show (getMV (applyAllH cfg (applyEventH cfg st e) es) a).cnt = _
+    rw [i]; unfold applyEventH; rw [r]
+    simp only [List.map_cons, List.sum_cons]; ring
+
+/-- the whole row for every sharding strategy -/
+theorem applyAllH_rowMV (cfg : Cfg) (st : Store) (evs : List Event) (a : Addr) (hwf : ∀ e ∈ evs, WF e) (ha : UserAddr a) :
+    getMV (applyAllH cfg st evs) a =
+      evs.foldl (fun mv e => (evFn (effCfg cfg e).metric.pct e)^[hitsN (effCfg cfg e) e a] mv) (getMV st a) := by
+  induction evs generalizing st with
+  | nil => rfl
+  | cons e es ih =>
+    show getMV (applyAllH cfg (applyEventH cfg st e) es) a = _
+    rw [ih _ (fun x hx => hwf x (List.mem_cons_of_mem _ hx))]
+    unfold applyEventH
+    rw [applyEvent_rowMV (effCfg cfg e) st e a (hwf e List.mem_cons_self) ha]
+    rfl
+
+
+
+/-! #### non-vacuity for the aggregate and status-row theorems -/
+
+/-- a second event for the same row: single value 1, no counter -/
+def exEvent2 : Event := { exEvent with values := [ofBits 0x3ff0000000000000], hist := [], counter := ofBits 0 }
+/-- a unique event for the same row: hashes 5, 5, 9 -/
+def exUniqEvent : Event := { exEvent with values := [], hist := [], uniq := [5, 5, 9], counter := ofBits 0 }
+
+example : evVals exEvent = [2, 4, 6] ∧ evSq exEvent = (4 + 16 + 72) * 8 / 4 ∧ evUniq exUniqEvent = [5, 5, 9] := by decide +kernel
+example : hitsN exCfg exEvent (addr1 exCfg exEvent) = 1 ∧ hitsN exCfg exEvent (addr2 exCfg exEvent 2) = 1 ∧
+    hitsN exCfg { exEvent with values := [ofBits 0x7ff8000000000000] } (addr1 exCfg exEvent) = 0 := by decide +kernel
+example : rowVals exCfg [exEvent, { exEvent with values := [ofBits 0x7ff8000000000000] }, exEvent2] (addr1 exCfg exEvent) = [2, 4, 6, 1] := by
+  decide +kernel
+/-- accepted, rejected, accepted, unique: min 1, max 9, Σ squares 184 + 1 + 131/… (exact), two distinct hashes, TDigest present -/
+example :
+    let r := getMV (applyAll exCfg [] [exEvent, { exEvent with values := [ofBits 0x7ff8000000000000] }, exEvent2, exUniqEvent]) (addr1 exCfg exEvent)
+    r.set = true ∧ r.min = 1 ∧ r.max = 9 ∧ r.sq = 184 + 1 + (25 + 25 + 81) ∧ r.uniq.length = 2 ∧ r.td = true ∧ r.cnt = 8 + 1 + 3 := by
+  decide +kernel
+example : exEvent.uniq.length = 0 ∧ exEvent.hist.length + exEvent.values.length ≠ 0 ∧
+    0 < effCount exEvent.counter.toRat (histTotal exEvent.values exEvent.hist) ∧ 0 < histTotal exEvent.values exEvent.hist := by
+  decide +kernel
+
+/-- an event 100 s in the future: clamped to now+3, one clamped-future warning in the first shard, none in the second -/
+def exFuture : Event := { exEvent with ts := 1100 }
+example : clampHit exCfg exFuture (clampAddr exCfg (evKey exCfg exFuture) 1) = 1 ∧
+    clampHit exCfg exFuture (clampAddr exCfg (evKey exCfg exFuture) 2) = 0 ∧ clampHit exCfg exEvent (clampAddr exCfg (evKey exCfg exFuture) 1) = 0 := by
+  decide +kernel
+example : (getMV (applyAll exCfg [] [exFuture, exEvent, exFuture]) (clampAddr exCfg (evKey exCfg exFuture) 1)).cnt = 2 ∧
+    (getMV (applyAll exCfg [] [exFuture, exEvent, exFuture]) (addr1 exCfg exFuture)).cnt = 16 ∧ (addr1 exCfg exFuture).ts = 1003 := by
+  decide +kernel
+
+/-- a tag the metric does not know: warning row "tag name not found" with the name as string top -/
+def exUnknownTag : TagIn :=
+  { isEnv := false, metaIdx := none, rawKind := 0, legacy := false, keyNorm := some "6e6f", keyHex := "3665", draft := false,
+    corrupted := false, valNorm := some "78", valHex := "3738", raw := none, raw64 := none }
+def exWarnAddr : Addr := statusAddr exCfg 1 statusMetricID statusMetricRes 0 (stTags 0 7 stWarnMapTagNameNotFound 0) "6e6f"
+example : exWarnAddr.metric = statusMetricID ∧ codeOf exWarnAddr = stWarnMapTagNameNotFound := by decide +kernel
+example : (getMV (applyAll exCfg [] [{ exEvent with tags := [exTag, exUnknownTag] }, exEvent, { exEvent with tags := [exUnknownTag] }]) exWarnAddr).cnt = 2 := by
   decide +kernel
 
 
